@@ -88,24 +88,43 @@ class YajilinClue(Combinator):
         if data[idx] == "..":
             return None
         value = data[idx]
+        if value == "??":
+            return 1, "0."
         DIR_MAP = {"^": 1, "v": 2, "<": 3, ">": 4}
         dir = DIR_MAP[value[0]]
         n = int(value[1:])
-        return 1, f"{dir}{hex(n)[2:]}"
+        if 0 <= n < 16:
+            return 1, f"{dir}{hex(n)[2:]}"
+        elif 16 <= n < 256:
+            return 1, f"{dir + 5}{hex(n)[2:]}"
+        elif 256 <= n < 4096:
+            return 1, f"-{dir}{hex(n)[2:]}"
+        return None
 
     def deserialize(self, env, data, idx):
         if idx + 1 >= len(data):
             return None
-        dir = data[idx]
+        c = data[idx]
+        if c == "-":
+            # "-", direction, three hex digits
+            if idx + 5 > len(data):
+                return None
+            dir, num, n_read = data[idx + 1], data[idx + 2 : idx + 5], 5
+        elif c in "56789":
+            # direction + 5, two hex digits
+            if idx + 3 > len(data):
+                return None
+            dir, num, n_read = chr(ord(c) - 5), data[idx + 1 : idx + 3], 3
+        else:
+            dir, num, n_read = c, data[idx + 1], 2
         if dir == "0":
-            return 2, ["??"]
+            return n_read, ["??"]
         if dir not in "1234":
             return None
         DIR_MAP = {1: "^", 2: "v", 3: "<", 4: ">"}
-        n = data[idx + 1]
-        if n == ".":
-            return 2, ["??"]
-        return 2, [f"{DIR_MAP[int(dir)]}{int(n, 16)}"]
+        if num == ".":
+            return n_read, ["??"]
+        return n_read, [f"{DIR_MAP[int(dir)]}{int(num, 16)}"]
 
 
 YAJILIN_COMBINATOR = Grid(OneOf(YajilinClue(), Spaces("..", "a")))
